@@ -5,6 +5,10 @@ V = os.path.dirname(os.path.dirname(os.path.abspath(__file__)))
 ids = [json.loads(l)["id"] for l in open(os.path.join(V, "properties.jsonl"))]
 
 CHECKS = {
+ "C14": dict(cat="exploration", design="§4 C14",
+   technique="property-based testing: exhaustive boundary cross products + Hypothesis random calls against independent Python implementations of every built-in",
+   text="Every string and number method of the statement is called on receivers held in run-time variables over the cross product of boundary receivers (empty, 1-char, ASCII, multi-byte text; extremes of int/bigint/byte, notable floats) and boundary arguments (indices -1..len+1, exponents -1/0/1/2/31/127, radices 1/2/10/16/36/37, numeric-looking and malformed text for the parsers), plus Hypothesis-drawn calls; with typed print, kind and value must equal an independent Python implementation of the documented meaning, and out-of-domain calls must stop with a failure. The boundary cross product is complete for the listed sets; everything else is sampled.",
+   note="Index-taking string methods only on ASCII receivers; pow/powf/sqrt floats with relative tolerance 1e-12; NaN-producing and lossy (to_ascii > 127, empty replace pattern, 0x-prefixed parser inputs) cases are not generated because no documented meaning exists."),
  "C16": dict(cat="exploration", design="§4 C16", engine="E-cli + E-fuzz",
    technique="grammar-derived generative fuzzing + token-level mutational fuzzing (Hypothesis) + enumerated boundary shapes; thorough adds a coverage-guided libFuzzer campaign whose crashes are re-judged through the CLI",
    text="Inputs up to 4 kB are produced by a generator derived at run time from the working tree's grammar.pest (all productions, types ignored, identifier reuse), by 1-4 token edits of the example corpus and of well-typed generated programs, and by ~90 enumerated boundary shapes (deep nesting of each bracketing construct, operator chains, huge literals, unterminated tokens, misplaced keywords, odd imports); `mscript compile --quick` must exit 0 or exit 1 with diagnostics - exit 101, a signal or a reproducible 10 s watchdog hit is a violation. The thorough tier adds a 16-process libFuzzer campaign (ASan, debug assertions, grammar dictionary, corpus seeds) against the in-memory compile hook; every artifact is replayed through the real CLI before it counts.",
